@@ -9,6 +9,63 @@ From Alpaqa Require Import Num NumR Vec Prox ProxProofs ProxVec SolverStatus Sol
 Import ListNotations.
 Local Open Scope R_scope.
 
+(* ------------------------------------------------------------------ per-stage accumulation = whole-vector reduction (over R) *)
+Lemma rsum_app (a b : list R) : rsum (a ++ b) = rsum a + rsum b.
+Proof. induction a as [|x a IH]; cbn; [lra|]. rewrite IH. lra. Qed.
+Lemma stage_sum_snoc N (F : nat -> R) : stage_sum (S N) F = stage_sum N F + F N.
+Proof. unfold stage_sum. rewrite seq_S, fold_left_app. reflexivity. Qed.
+Lemma stage_sum_ext N (F G : nat -> R) : (forall t, (t < N)%nat -> F t = G t) -> stage_sum N F = stage_sum N G.
+Proof.
+  induction N as [|N IH]; intros HE; [reflexivity|]. rewrite !stage_sum_snoc. rewrite IH by (intros; apply HE; lia). rewrite HE by lia. reflexivity.
+Qed.
+Lemma stage_seg_firstn {A} nu N t (h : list A) : (t < N)%nat -> stage_seg nu t (firstn (N * nu) h) = stage_seg nu t h.
+Proof.
+  intros Ht. unfold stage_seg. rewrite skipn_firstn_comm, firstn_firstn. f_equal. nia.
+Qed.
+Lemma stage_sum_rsum nu : forall N (h : list R), length h = (N * nu)%nat ->
+  stage_sum N (fun t => rsum (stage_seg nu t h)) = rsum h.
+Proof.
+  induction N as [|N IH]; intros h Hl.
+  - destruct h; [reflexivity|discriminate].
+  - rewrite stage_sum_snoc.
+    rewrite (stage_sum_ext N _ (fun t => rsum (stage_seg nu t (firstn (N * nu) h)))) by (intros t Ht; now rewrite stage_seg_firstn).
+    rewrite IH by (rewrite firstn_length; nia).
+    unfold stage_seg. rewrite (firstn_all2 (n:=nu)) by (rewrite skipn_length; nia).
+    rewrite <- rsum_app, firstn_skipn. reflexivity.
+Qed.
+Lemma firstn_map2 {A B C} (f : A -> B -> C) k : forall a b, firstn k (map2 f a b) = map2 f (firstn k a) (firstn k b).
+Proof. induction k as [|k IH]; intros [|x a] [|y b]; cbn; try reflexivity. now rewrite IH. Qed.
+Lemma skipn_map2 {A B C} (f : A -> B -> C) k : forall a b, length a = length b -> skipn k (map2 f a b) = map2 f (skipn k a) (skipn k b).
+Proof.
+  induction k as [|k IH]; intros [|x a] [|y b] Hl; cbn in *; try reflexivity; try discriminate. apply IH. lia.
+Qed.
+Lemma stage_sum_vsqnorm nu N (p : list R) : length p = (N * nu)%nat ->
+  stage_sum N (fun t => vsqnorm (stage_seg nu t p)) = vsqnorm p.
+Proof.
+  intros Hl. rewrite vsqnorm_rsum, <- (stage_sum_rsum nu N) by (now rewrite map_length).
+  apply stage_sum_ext. intros t _. rewrite vsqnorm_rsum. unfold stage_seg. now rewrite skipn_map, firstn_map.
+Qed.
+Lemma stage_sum_vdot nu N (g p : list R) : length g = (N * nu)%nat -> length p = (N * nu)%nat ->
+  stage_sum N (fun t => vdot (stage_seg nu t g) (stage_seg nu t p)) = vdot g p.
+Proof.
+  intros Hg Hp. rewrite vdot_rsum, <- (stage_sum_rsum nu N) by (rewrite (map2_length _ g p (N * nu)); auto).
+  apply stage_sum_ext. intros t _. rewrite vdot_rsum. unfold stage_seg. rewrite skipn_map2 by lia. now rewrite firstn_map2.
+Qed.
+Lemma tile_length {A} N (l : list A) : length (tile N l) = (N * length l)%nat.
+Proof. unfold tile. induction N as [|N IH]; cbn; [reflexivity|]. rewrite app_length, IH. reflexivity. Qed.
+Lemma vdot_comm (a b : list R) : vdot a b = vdot b a.
+Proof. rewrite !vdot_rsum. revert b; induction a as [|x a IH]; intros [|y b]; cbn; try reflexivity. rewrite IH. lra. Qed.
+Lemma proj_step_all_in_box γ : forall (lb' ub' : list (option R)) (x g : list R),
+  length ub' = length lb' -> length x = length lb' -> length g = length lb' ->
+  Forall2 box_ne lb' ub' -> all_in_box lb' ub' (fst (fst (proj_grad_step lb' ub' γ x g))).
+Proof.
+  unfold all_in_box, proj_grad_step; cbn [fst snd].
+  induction lb' as [|l lb' IH]; intros [|u ub'] [|a x] [|b g] H1 H2 H3 Hne; cbn in *; try discriminate; constructor.
+  - inversion Hne; subst. cbn [fst snd]. split; [|assumption].
+    change (nadd a ?t) with (a + t). rewrite proj_step1_is_proj. now apply proj1_in_box.
+  - inversion Hne; subst. apply IH; try lia; assumption.
+Qed.
+
 Section Proofs.
   Variables X QR DS : Type.
   Variable fwd : list R -> R * X.
@@ -653,5 +710,143 @@ Section Proofs.
            destruct (exit_values X cvals Dlb Dub P u_in y_in μ errz_in st c) as [[uo yo] eo] eqn:Eex end;
          eexists; split; [reflexivity|]; cbn [out_iterations out_status out_eps out_u out_y out_errz];
          split; [reflexivity|]; split; [discriminate|]; split; [reflexivity|now rewrite Eex].
+  Qed.
+
+  (* ------------------------------------------------------------------ (d) descent after a safeguarded step (τ = 0) *)
+  (* with well-formed dimensions the per-stage accumulations are the squared norm / scalar product of the whole vectors *)
+  Lemma consistent_pp_gp (i : it) : consistent i -> length Ulb = nu -> length Uub = nu ->
+    length (iu i) = (N * nu)%nat -> length (igrad i) = (N * nu)%nat ->
+    length (ip i) = (N * nu)%nat /\ length (iuh i) = (N * nu)%nat /\ ipp i = vsqnorm (ip i) /\ igp i = vdot (igrad i) (ip i).
+  Proof.
+    intros Hc Hl Hu Hx Hg. destruct (consistent_explicit i Hc) as (_ & _ & _ & E4 & E5 & _ & E7 & E8 & _).
+    destruct (proj_grad_step_length (tile N Ulb) (tile N Uub) (igam i) (iu i) (igrad i) (N * nu)) as [L1 L2];
+      try assumption; try (rewrite tile_length; congruence).
+    rewrite <- E4 in L1. rewrite <- E5 in L2. split; [exact L2|]. split; [exact L1|].
+    split; [rewrite E7; now apply stage_sum_vsqnorm|rewrite E8; now apply stage_sum_vdot].
+  Qed.
+  (* the stopping criterion of the loop is C13's ocp_crit on the iterate's own (γ, u, ∇ψ, p) *)
+  Lemma eps_is_ocp_crit (i : it) : consistent i -> length Ulb = nu -> length Uub = nu ->
+    length (iu i) = (N * nu)%nat -> length (igrad i) = (N * nu)%nat ->
+    eps_of i = ocp_crit (p_crit P) Ulb Uub N (igam i) (iu i) (igrad i) (ip i).
+  Proof.
+    intros Hc Hl Hu Hx Hg. destruct (consistent_pp_gp i Hc Hl Hu Hx Hg) as (_ & _ & Epp & _).
+    unfold it_eps, ocp_crit, crit_eps, unit_step, vnorm2. cbn [eval_prox_grad_step].
+    destruct (p_crit P); try reflexivity; try (rewrite Epp; reflexivity).
+    unfold prox_impl. cbn [fst snd]. do 2 f_equal. apply stage_sum_vsqnorm.
+      apply (proj_grad_step_length (tile N Ulb) (tile N Uub) 1 (iu i) (igrad i) (N * nu)); try assumption; rewrite tile_length; congruence.
+  Qed.
+
+  Lemma desc_safe (r r' : cbrec (T:=R) X) : desc r r' -> rec_ok r -> rec_ok r' ->
+    r_tau r = 0 -> iL (r_it r) < p_Lmax P -> 0 < igam (r_it r) -> 0 < igam (r_it r') ->
+    length Ulb = nu -> length Uub = nu -> length (iu (r_it r)) = (N * nu)%nat -> length (igrad (r_it r)) = (N * nu)%nat ->
+    length (igrad (r_it r')) = (N * nu)%nat -> Forall2 box_ne (tile N Ulb) (tile N Uub) ->
+    let a := r_it r in
+    it_fbe (r_it r') <= it_fbe a - (1 - igam a * iL a) / (2 * igam a) * ipp a + (1 + Rabs (ipsi a)) * p_qub_tol P.
+  Proof.
+    intros (_ & _ & _ & _ & Hsafe) (Ac & Aq & _) (Bc & _) Ht HL Hga Hgb Hl Hu Hlx Hlg Hlg' Hne a.
+    destruct (Hsafe Ht) as [Sx Sp]. subst a. set (a := r_it r) in *. set (b := r_it r') in *.
+    destruct (consistent_pp_gp a Ac Hl Hu Hlx Hlg) as (Lpa & Lua & Eppa & Egpa).
+    assert (Hlxb : length (iu b) = (N * nu)%nat) by (rewrite Sx; exact Lua).
+    destruct (consistent_pp_gp b Bc Hl Hu Hlxb Hlg') as (_ & _ & Eppb & Egpb).
+    destruct (consistent_explicit a Ac) as (_ & _ & _ & A4 & A5 & _).
+    destruct (consistent_explicit b Bc) as (_ & _ & _ & _ & B5 & _).
+    assert (Hbox : all_in_box (tile N Ulb) (tile N Uub) (iuh a)).
+    { rewrite A4. apply proj_step_all_in_box; rewrite ?tile_length; try congruence; try exact Hne. }
+    assert (Hqv : qub_violated (ipsi a) (ipsih a) (vdot (igrad a) (ip a)) (iL a) (vsqnorm (ip a)) (p_qub_tol P) = false).
+    { unfold qub_ok, it_qub_violated in Aq. rewrite Eppa, Egpa in Aq. destruct (Rlt_bool_spec (iL a) (p_Lmax P)); [exact Aq|lra]. }
+    rewrite A5 in Hqv.
+    pose proof (safe_step_envelope_descent (tile N Ulb) (tile N Uub) (igam a) (igam b) (iL a) (p_qub_tol P) (iu a) (igrad a) (iuh a) (igrad b) (ipsi a) (ipsih a)
+                  Hga Hgb ltac:(rewrite tile_length; congruence) ltac:(rewrite tile_length; congruence) ltac:(congruence) Hbox Hqv) as Hd.
+    cbv zeta in Hd. rewrite <- Sx, <- B5, <- A5 in Hd.
+    unfold it_fbe. change (@n0 R NumR) with 0. rewrite Eppb, Egpb, Eppa, Egpa, Sp. exact Hd.
+  Qed.
+
+  (* what C13 needs from the loop: a run that returns Converged hands back the projected-gradient point û of a consistent iterate whose
+     documented residual (C13's crit_doc of the selected criterion, on the oracle's ψ / ∇ψ at u) is within the tolerance *)
+  Theorem run_converged_certifies fuel o : run_ fuel = Done o -> out_status o = StConverged ->
+    let cf := out_final o in
+    length Ulb = nu -> length Uub = nu -> length (iu cf) = (N * nu)%nat -> length (igrad cf) = (N * nu)%nat -> igam cf <> 0 ->
+    let st := proj_grad_step (tile N Ulb) (tile N Uub) (igam cf) (iu cf) (igrad cf) in
+    consistent cf /\
+    out_u o = fst (fst st) /\
+    crit_doc (p_crit P) (tile N Ulb) (tile N Uub) (igam cf) (iu cf) (fst (fst st)) [] (igrad cf) [] <= eff_tol (o_tol P) /\
+    igrad cf = fst (bwd (iu cf) (snd (fwd (iu cf)))) /\
+    (let rows := ocp_write Dlb Dub (cvals (snd (fwd (out_u o)))) y_in μ in out_y o = map fst rows /\ out_errz o = map snd rows).
+  Proof.
+    intros Hr Hst. cbv zeta.
+    destruct (run_post fuel o Hr) as (cf' & cnt & np & W). destruct W. rewrite po_final0. intros Hl Hu Hx Hg Hγ.
+    destruct (run_exit fuel o Hr) as (cf2 & _ & _ & _ & Ef & _ & Hov & _). rewrite po_final0 in Ef. subst cf2.
+    assert (Ho : overwrites (out_status o) (o_always P) = true) by (rewrite Hst; reflexivity).
+    destruct (Hov Ho) as (O1 & _ & O3 & O4).
+    destruct (consistent_explicit cf' po_cons0) as (_ & _ & E3 & _ & E5 & _).
+    split; [exact po_cons0|]. split; [exact O3|]. split; [|split; [exact E3|exact O4]].
+    pose proof (eps_is_ocp_crit cf' po_cons0 Hl Hu Hx Hg) as Ec. rewrite po_eps0, E5 in Ec. symmetry in Ec.
+    rewrite Hst in po_status0. symmetry in po_status0.
+    exact (ocp_converged_certifies (p_crit P) Ulb Uub N (igam cf') (iu cf') (igrad cf') (o_tol P) (out_eps o) _ _ _ _ _ _ Hγ Ec po_status0).
+  Qed.
+
+  (* ------------------------------------------------------------------ `throw std::logic_error("enable_lbfgs")` is unreachable *)
+  Lemma ls_do_gn_cases q τi dng : forall fuel s,
+    match lsloop fuel q τi dng s with
+    | LsDone s' | LsStopped s' => ls_do_gn s' = ls_do_gn s \/ ls_do_gn s' = dng
+    | LsFuel => True
+    end.
+  Proof.
+    induction fuel as [|fuel IH]; intros s; [exact I|].
+    cbn [ls_loop]. destruct (stop_req (ls_cnt s)); [left; reflexivity|].
+    set (ph := if neqb (ls_tau s) (ls_tau_prev s) then (ls_next s, ls_qr s, inc_polls (ls_cnt s), ls_do_gn s)
+               else if neqb (ls_tau s) n0 then (fst (take_safe_step X QR bwd (ls_curr s) (ls_next s)), snd (take_safe_step X QR bwd (ls_curr s) (ls_next s)),
+                                          inc_bwd (inc_polls (ls_cnt s)), ls_do_gn s)
+               else (fst (take_accel_step X QR fwd bwd (ls_tau s) q (ls_curr s) (ls_next s)), snd (take_accel_step X QR fwd bwd (ls_tau s) q (ls_curr s) (ls_next s)),
+                     inc_bwd (inc_fwd (inc_polls (ls_cnt s))), if neqb (ls_tau s) n1 then ls_do_gn s else dng)).
+    assert (F : snd ph = ls_do_gn s \/ snd ph = dng).
+    { subst ph. destruct (neqb (ls_tau s) (ls_tau_prev s)); [left; reflexivity|]. destruct (neqb (ls_tau s) n0); [left; reflexivity|].
+      cbn [snd]. destruct (neqb (ls_tau s) n1); [left|right]; reflexivity. }
+    destruct ph as [[[next qr] c1] dg]. cbn [snd] in F.
+    repeat match goal with
+    | |- match (if ?b then lsloop fuel q τi dng ?s1 else _) with _ => _ end =>
+        destruct b; [specialize (IH s1); destruct (lsloop fuel q τi dng s1); cbn [ls_do_gn] in IH; try exact I;
+                     (destruct IH as [E|E]; [rewrite E; exact F|right; exact E])|]
+    end.
+    cbn [ls_do_gn]. exact F.
+  Qed.
+
+  Definition gn_inv (s : lstate_) : Prop := p_gn_interval P = 1%nat -> p_disable_acc P = false -> st_do_gn s = true.
+
+  Lemma pass_gn_inv (s : lstate_) : gn_inv s ->
+    match pass_ s with PCont s' => gn_inv s' | PThrowLogic => False | _ => True end.
+  Proof.
+    intros HG. unfold pass. cbv zeta.
+    destruct (eps_of (st_curr s)) as [ε|]; [|exact I].
+    match goal with |- context [stop_status_ocp ?a ?b ?c ?d ?e ?f ?g ?h] => destruct (stop_status_ocp a b c d e f g h) end.
+    2-8: match goal with |- context [exit_values _ _ _ _ _ _ _ _ _ ?st ?c] =>
+           destruct (exit_values X cvals Dlb Dub P u_in y_in μ errz_in st c) as [[uo yo] eo] end; exact I.
+    match goal with |- match (match ?d with Some _ => _ | None => _ end) with _ => _ end => set (dir := d) end.
+    assert (Hd : dir = None -> p_gn_interval P = 1%nat /\ p_disable_acc P = false /\ st_do_gn s = false).
+    { subst dir. destruct (p_disable_acc P); [discriminate|]. destruct (st_do_gn s); [discriminate|].
+      unfold enable_lbfgs. destruct (Nat.eqb_spec (p_gn_interval P) 1); cbn [negb].
+      - intros _. repeat split; assumption.
+      - match goal with |- context [lb_apply ?a ?b ?c ?d] => destruct (lb_apply a b c d) as [[ok q'] ds'] end. discriminate. }
+    destruct dir as [[[[[τ0 q] nJ] ds1] c2]|].
+    2: { destruct (Hd eq_refl) as (A & B & C). rewrite (HG A B) in C. discriminate. }
+    match goal with |- context [lsloop ls_fuel q ?τi ?dng ?l0] => pose proof (ls_do_gn_cases q τi dng ls_fuel l0) as Hls; destruct (lsloop ls_fuel q τi dng l0) as [l|l|]; [| |exact I] end.
+    - match goal with |- match (let '(ds3, rej) := ?dr in _) with _ => _ end => destruct dr as [ds3 rej] end.
+      unfold gn_inv. cbn [st_do_gn ls_do_gn] in *. intros A B. rewrite A, B in Hls. rewrite Nat.mod_1_r in Hls. cbn in Hls.
+      destruct Hls as [E|E]; exact E.
+    - unfold gn_inv. cbn [st_do_gn ls_do_gn] in *. intros A B. rewrite A, B in Hls. rewrite Nat.mod_1_r in Hls. cbn in Hls.
+      destruct Hls as [E|E]; exact E.
+  Qed.
+
+  Lemma loop_no_logic_error : forall fuel s, gn_inv s -> loop_ fuel s <> ThrewLogic.
+  Proof.
+    induction fuel as [|fuel IH]; intros s HG; cbn [loop]; [discriminate|].
+    pose proof (pass_gn_inv s HG) as Hp. destruct (pass_ s) as [o'|s'| | |]; try discriminate; [now apply IH|contradiction].
+  Qed.
+  Theorem run_no_logic_error fuel : run_ fuel <> ThrewLogic.
+  Proof.
+    unfold panoc_ocp. destruct initL as [[[i0 nx0] qr0] c0].
+    destruct (negb (nfinite (iL i0))); [discriminate|].
+    destruct (initqub ls_fuel (first_it i0) (inc_fwd c0) stats0) as [[[i3 c1] s1]|]; [|discriminate].
+    apply loop_no_logic_error. unfold gn_inv. cbn [st_do_gn]. intros A B. rewrite A, B. reflexivity.
   Qed.
 End Proofs.
